@@ -58,6 +58,13 @@ Tables (one ``table.run`` each, own counters in the evidence):
             labels 'b', 'l0', 'r1', ..., a label given as bare str,
             parametrised gates), gate_inds_with_tn (tensor / network / split
             gate, absent labels), Tensor.gate
+  reuse     depth-2 / depth-3 histories in which every step hands quimb the
+            SAME operator network / sub-MPO / gate network / array object
+            (gate_with_op_lazy, gate_{upper,lower,sandwich}_with_op_lazy,
+            gate_with_submpo(method='lazy'), gate_with_mpo after a lazy copy,
+            gate_inds_with_tn, plain gates), nothing contracted in between:
+            the operator's inner labels then clash with the copy already in
+            the state and must be renamed
   hist      depth-2 histories: every (accepted first step, second step) pair of
             the single-step menu of a target
   hist3     (thorough) depth-3 histories on the 3-site open MPS
@@ -72,7 +79,15 @@ defects) are listed in ``ctx.assumptions``.  Not asserted: gate_fit_local_
 (variational by design), the randomised / variational 1D compression methods
 (C09's table), block-sparse / fermionic backends.
 
-Observations outside the documented domain (not findings): a PArray gate on
+The chain table also runs the swap routes with quimb's default compress
+options and with only a roomy max_bond (not just the exact profile), and one
+MPS / MPO / graph target has non-default site_ind_id / site_tag_id.
+
+Observations outside the documented domain (not findings): contract=True /
+'split' / 'reduce-split' across a HYPER label (one label on three site tensors)
+give a wrong tensor - the gating docs and pictures assume pairwise bonds, hyper
+labels are documented for contraction only (C01 lists the same root: a subset
+contraction without output labels sums the hyper label); a PArray gate on
 ONE site with contract=True raises ImportError (autoray tensordot on the
 'quimb' backend); mps.gate(contract='nonlocal') on a cyclic MPS returns the
 right state as an open chain whose ``cyclic`` flag still says True (later chain
@@ -1979,7 +1994,7 @@ def _reuse_menu(t):
 
 def _cells_reuse(tier):
     """K: histories of depth 2 (all targets) and 3 (quick: the first MPS and
-    MPO; thorough: all) over the re-use menu: the second and third step get the
+    MPO; thorough: all but the PEPS and the graph operator) over the re-use menu: the second and third step get the
     very same operator object as the first, nothing contracted in between."""
     T = _targets(tier)
     ts = [T["mps"][0], T["mps"][1], T["cmps"][0], T["peps"][0], T["gvec"][0], T["mpo"][0], T["gop"][0], T["raw"][1], T["raw"][0], T["mps"][5]]
@@ -1990,7 +2005,8 @@ def _cells_reuse(tier):
             cells.append({"t": t, "steps": (dict(a),)})
             for b in menu:
                 cells.append({"t": t, "steps": (dict(a), dict(b))})
-                if tier != "quick" or t in (T["mps"][0], T["mpo"][0]):
+                # three stacked 2D / graph operators are too costly to denote densely: depth 2 there
+                if (tier != "quick" and t[0] not in ("peps", "gop")) or t in (T["mps"][0], T["mpo"][0]):
                     for c in menu:
                         cells.append({"t": t, "steps": (dict(a), dict(b), dict(c))})
     return cells
